@@ -346,7 +346,7 @@ proof fn lemma_link_all<V: ToUniqueIndex>(a: VectorMap<V, V>, b: VectorMap<V, V>
         ensures
             final(self).wf(),                                                                                   //@ob C19.ds.insert.wf
             forall|i: int| final(self).dom(i) == (old(self).dom(i) || i == value.index_spec()),                 //@ob C19.ds.insert.domain
-            forall|i: int| old(self).dom(i) ==> #[trigger] final(self).root(i) == old(self).root(i),            //@ob C19.ds.insert.partition_unchanged
+            forall|i: int| #![trigger final(self).root(i)] #![trigger old(self).root(i)] old(self).dom(i) ==> final(self).root(i) == old(self).root(i),            //@ob C19.ds.insert.partition_unchanged
             !old(self).dom(value.index_spec() as int) ==> final(self).root(value.index_spec() as int) == value.index_spec(),  //@ob C19.ds.insert.singleton_when_absent
             forall|i: int| final(self).dat(i) == old(self).dat(i),                                              //@ob C19.ds.insert.data_unchanged
 //@proof entry
@@ -356,7 +356,10 @@ proof fn lemma_link_all<V: ToUniqueIndex>(a: VectorMap<V, V>, b: VectorMap<V, V>
 //@proof exit
         proof {
             let s1 = *self;
-            if !s0.dom(x) && par_upd(s0.reps, s1.reps, x, x) { lemma_add_singleton_all(s0.reps, s1.reps, x); }
+            if !s0.dom(x) && par_upd(s0.reps, s1.reps, x, x) {
+                lemma_add_singleton_all(s0.reps, s1.reps, x);
+                assert forall|j: int| s0.dom(j) implies #[trigger] s1.root(j) == s0.root(j) by {}
+            }
         }
 //@end
 
@@ -367,9 +370,10 @@ proof fn lemma_link_all<V: ToUniqueIndex>(a: VectorMap<V, V>, b: VectorMap<V, V>
         ensures
             final(self).wf(),                                                                                   //@ob C19.ds.find.wf
             forall|i: int| final(self).dom(i) == (old(self).dom(i) || i == value.index_spec()),                 //@ob C19.ds.find.domain
-            forall|i: int| old(self).dom(i) ==> #[trigger] final(self).root(i) == old(self).root(i),            //@ob C19.ds.find.partition_unchanged
+            forall|i: int| #![trigger final(self).root(i)] #![trigger old(self).root(i)] old(self).dom(i) ==> final(self).root(i) == old(self).root(i),            //@ob C19.ds.find.partition_unchanged
             !old(self).dom(value.index_spec() as int) ==> final(self).root(value.index_spec() as int) == value.index_spec(),  //@ob C19.ds.find.singleton_when_absent
             res.index_spec() == final(self).root(value.index_spec() as int),                                    //@ob C19.ds.find.returns_root
+            final(self).par(res.index_spec() as int) == Some(res.index_spec() as int),                          //@ob C19.ds.find.result_is_a_root
             forall|i: int| final(self).dat(i) == old(self).dat(i),                                              //@ob C19.ds.find.data_unchanged
         decreases (if old(self).dom(value.index_spec() as int) { 0nat } else { 1nat }), (if old(self).dom(value.index_spec() as int) { old(self).rank(value.index_spec() as int) } else { 0nat }),   //@ob C19.ds.find.terminates
 //@proof entry
@@ -388,12 +392,18 @@ proof fn lemma_link_all<V: ToUniqueIndex>(a: VectorMap<V, V>, b: VectorMap<V, V>
 //@proof after "self.reps.insert($1);" #1
                 proof {
                     let s2 = *self;
-                    if s1.dom(x) && par_upd(s1.reps, s2.reps, x, s1.root(x)) { lemma_compress_all(s1.reps, s2.reps, x); }
+                    if s1.dom(x) && par_upd(s1.reps, s2.reps, x, s1.root(x)) {
+                        lemma_compress_all(s1.reps, s2.reps, x);
+                        assert forall|j: int| s1.dom(j) implies #[trigger] s2.root(j) == s1.root(j) by {}
+                    }
                 }
 //@proof after "self.reps.insert($1);" #2
             proof {
                 let s3 = *self;
-                if !s0.dom(x) && par_upd(s0.reps, s3.reps, x, x) { lemma_add_singleton_all(s0.reps, s3.reps, x); }
+                if !s0.dom(x) && par_upd(s0.reps, s3.reps, x, x) {
+                    lemma_add_singleton_all(s0.reps, s3.reps, x);
+                    assert forall|j: int| s0.dom(j) implies #[trigger] s3.root(j) == s0.root(j) by {}
+                }
             }
 //@end
 
@@ -447,7 +457,7 @@ proof fn lemma_link_all<V: ToUniqueIndex>(a: VectorMap<V, V>, b: VectorMap<V, V>
         ensures
             final(self).wf(),                                                                                   //@ob C19.ds.add_data.wf
             forall|i: int| final(self).dom(i) == (old(self).dom(i) || i == value.index_spec()),                 //@ob C19.ds.add_data.domain
-            forall|i: int| old(self).dom(i) ==> #[trigger] final(self).root(i) == old(self).root(i),            //@ob C19.ds.add_data.partition_unchanged
+            forall|i: int| #![trigger final(self).root(i)] #![trigger old(self).root(i)] old(self).dom(i) ==> final(self).root(i) == old(self).root(i),            //@ob C19.ds.add_data.partition_unchanged
             final(self).root(value.index_spec() as int) == old(self).root_or_self(value.index_spec() as int),   //@ob C19.ds.add_data.singleton_when_absent
             forall|i: int| #[trigger] final(self).dat(i) == (if i == final(self).root(value.index_spec() as int) {
                     Some(old(self).dat_or_id(i).combine_spec(data)) } else { old(self).dat(i) }),               //@ob C19.ds.add_data.accumulates_at_root
@@ -460,7 +470,7 @@ proof fn lemma_link_all<V: ToUniqueIndex>(a: VectorMap<V, V>, b: VectorMap<V, V>
         ensures
             final(self).wf(),                                                                                   //@ob C19.ds.get_data.wf
             forall|i: int| final(self).dom(i) == (old(self).dom(i) || i == value.index_spec()),                 //@ob C19.ds.get_data.domain
-            forall|i: int| old(self).dom(i) ==> #[trigger] final(self).root(i) == old(self).root(i),            //@ob C19.ds.get_data.partition_unchanged
+            forall|i: int| #![trigger final(self).root(i)] #![trigger old(self).root(i)] old(self).dom(i) ==> final(self).root(i) == old(self).root(i),            //@ob C19.ds.get_data.partition_unchanged
             final(self).root(value.index_spec() as int) == old(self).root_or_self(value.index_spec() as int),   //@ob C19.ds.get_data.singleton_when_absent
             forall|i: int| final(self).dat(i) == old(self).dat(i),                                              //@ob C19.ds.get_data.data_unchanged
             match r { Some(d) => old(self).dat(final(self).root(value.index_spec() as int)) == Some(*d),
@@ -473,7 +483,7 @@ proof fn lemma_link_all<V: ToUniqueIndex>(a: VectorMap<V, V>, b: VectorMap<V, V>
         ensures
             final(self).wf(),                                                                                   //@ob C19.ds.set_data.wf
             forall|i: int| final(self).dom(i) == (old(self).dom(i) || i == value.index_spec()),                 //@ob C19.ds.set_data.domain
-            forall|i: int| old(self).dom(i) ==> #[trigger] final(self).root(i) == old(self).root(i),            //@ob C19.ds.set_data.partition_unchanged
+            forall|i: int| #![trigger final(self).root(i)] #![trigger old(self).root(i)] old(self).dom(i) ==> final(self).root(i) == old(self).root(i),            //@ob C19.ds.set_data.partition_unchanged
             final(self).root(value.index_spec() as int) == old(self).root_or_self(value.index_spec() as int),   //@ob C19.ds.set_data.singleton_when_absent
             forall|i: int| #[trigger] final(self).dat(i) == (if i == final(self).root(value.index_spec() as int) { Some(data) } else { old(self).dat(i) }),   //@ob C19.ds.set_data.replaces_at_root
 //@end
